@@ -78,6 +78,13 @@ def statements(tier: str):
         out.append(("eq", f"a(S) :- q(Y), S = #sum {{ X : X = {t}, p(X) }}."))
         out.append(("eq", f"a(X) :- q(Y), not X != {t}, p(X)."))
         out.append(("eq", f":~ q(Y), X = {t}. [X@1]"))
+    for t in ("Y+1", "Y", "2*Y", "Y-1"):
+        out.append(("eq", f"a(X) :- p(X), q(Y) : r(Y,_), X = {t}."))
+        out.append(("eq", f"a(X) :- p(X), q(Y) : r(Y,_), {t} = X."))
+        out.append(("eq", f"a(X) :- p(X), not q(Y) : p(Y), not X != {t}."))
+        out.append(("eq", f"a(X) :- p(X), 1 <= #sum {{ 1,Y : q(Y), X = {t} }}."))
+        out.append(("eq", f"a(X,S) :- p(X), S = #sum {{ Y : q(Y), {t} = X }}."))
+        out.append(("eq", f":~ p(X), q(Y) : r(Y,_), X = {t}. [1@1,X]"))
     for s in ("a(X) :- p(X), X = X+1.", "a(X) :- p(X), X = X*1.", "a(X) :- p(X), q(Y), X = Y, Y = X.",
               "a(X) :- p(X), q(Y), X = Y+1, Y = X-1.", "a :- p(X), X = 1.", "a(X) :- p(X), not X != 1.",
               "a(X,Z) :- p(X), Z = X+1, q(Z).", "a(Z) :- p(X), q(Y), Z = X+Y.", "a(Z) :- p(X), Z = X+1, Z = 2.",
